@@ -756,7 +756,7 @@ def r6(R):
 @rule('C04.R7', 'every record a file storage stages links back to the '
       'object\'s current record (prev pointer from the index) and to the '
       'transaction being written (position from the committed end)',
-      props=['C06', 'C17', 'C07', 'C01'], min_instances=4)
+      props=['C06', 'C17', 'C07', 'C01', 'C15'], min_instances=4)
 def r7(R):
     cls = R.prog.cls(FS)
     dh = R.prog.cls('ZODB.FileStorage.format.DataHeader')
